@@ -32,6 +32,10 @@ pub struct Case {
     pub spec: ProgSpec,
     /// None: the valid program; Some(i): an out-of-reach label reference at statement position i
     pub fail_at: Option<usize>,
+    /// Some(total): instead, a backward reference from the last statement to the first one in a
+    /// program of exactly `total` words (small totals right at the reach of the field)
+    #[serde(default)]
+    pub back_total: Option<usize>,
     pub dest: Dest,
     pub fault: Fault,
     /// use the default destination (<name>.lc3 in the working directory)
@@ -57,13 +61,23 @@ pub fn judge_case(c: &Case) -> Obs {
     let mut obs = Obs::default();
     let built = proggen::build(&c.spec);
     let nstmts = built.program.lines.iter().filter(|l| matches!(l.body, Body::Stmt(_))).count();
-    let program = match c.fail_at {
-        Some(i) => with_failure(built.program.clone(), i.min(nstmts), i + c.spec.orig_val as usize),
-        None => built.program.clone(),
+    let program = match (c.back_total, c.fail_at) {
+        (Some(total), _) => {
+            let (op, regs): (Op, Vec<u8>) = [(Op::Br(7, false), vec![]), (Op::Ld, vec![1]), (Op::St, vec![3]), (Op::Lea, vec![2])][total % 4].clone();
+            match refasm::with_backward_reference(&built.program, op, &regs, total) {
+                Some(p) => p,
+                None => {
+                    obs.excluded = Some("program longer than the targeted total");
+                    return obs;
+                }
+            }
+        }
+        (None, Some(i)) => with_failure(built.program.clone(), i.min(nstmts), i + c.spec.orig_val as usize),
+        (None, None) => built.program.clone(),
     };
     let verdict = refasm::judge(&program, built.stack);
-    let expect_ok = match (&verdict, c.fail_at) {
-        (Verdict::Accept(_), None) => true,
+    let expect_ok = match (&verdict, c.fail_at.or(c.back_total)) {
+        (Verdict::Accept(_), _) => true,
         (Verdict::Reject("label out of reach"), Some(_)) => false,
         _ => {
             obs.excluded = Some("generator: program not as intended");
@@ -72,7 +86,7 @@ pub fn judge_case(c: &Case) -> Obs {
     };
     let text = refasm::render(&program, Layout::CANON).text;
     obs.key = hash_of(&(&text, c.dest, c.fault, c.default_dest));
-    obs.nontrivial = c.fail_at.is_some() || c.fault != Fault::None;
+    obs.nontrivial = c.fail_at.is_some() || c.back_total.is_some() || c.fault != Fault::None;
     obs.show = Some(format!("fail_at={:?} dest={:?} fault={:?} default_dest={} stack={}\n{}", c.fail_at, c.dest, c.fault, c.default_dest, built.stack, text));
     obs.label(match c.fault {
         Fault::None => "fault-none",
@@ -81,8 +95,11 @@ pub fn judge_case(c: &Case) -> Obs {
         Fault::IsDirectory => "fault-destination-is-directory",
         Fault::ReadOnlyFile => "fault-read-only-file",
     });
-    if c.fail_at.is_some() {
+    if c.fail_at.is_some() || (c.back_total.is_some() && !expect_ok) {
         obs.label("assembly-fails-at-emission");
+    }
+    if c.back_total.is_some() {
+        obs.label("backward-reference-at-exact-program-size");
     }
     let dir = TempDir::new();
     dir.write("prog.asm", text.as_bytes());
@@ -207,7 +224,7 @@ impl Prop for C08 {
         true
     }
     fn rule(&self) -> &'static str {
-        "For each generated ProgGen program of n <= ~14 statements: the valid program and an out-of-reach label reference (BR/LD/LEA/ST/JSR in turn) placed at EVERY statement position 0..n x destination {absent, pre-existing with known contents, pre-existing and longer than the new image} x default / explicit destination; and the destination faults {/dev/full, path in a non-existent directory, path that is a directory, read-only file}. `lace compile` is the real binary (guard off). \
+        "For each generated ProgGen program of n <= ~14 statements: the valid program and an out-of-reach label reference (BR/LD/LEA/ST/JSR in turn) placed at EVERY statement position 0..n (padding barely / comfortably / far beyond the field's reach), and a backward reference from the last to the first statement in programs of exactly 255..259 and 300 words, x destination {absent, pre-existing with known contents, pre-existing and longer than the new image} x default / explicit destination; and the destination faults {/dev/full, path in a non-existent directory, path that is a directory, read-only file}. `lace compile` is the real binary (guard off). \
          Oracle: exit 0 => the destination holds exactly origin ++ words of the RefAsm image (big-endian); exit != 0 => the destination's bytes / absence are exactly as before; a destination that cannot take the data must not end in exit 0. \
          Non-trivial: a failure is injected (emission position or I/O fault). Distinct = hash(source, destination state, fault). The enumerated fault set is complete per program (exhaustive over positions x destination states x listed faults); programs are sampled."
     }
@@ -249,13 +266,20 @@ impl Prop for C08 {
             for fail_at in positions {
                 for (k, dest) in [Dest::Absent, Dest::ExistingShort, Dest::ExistingLong].into_iter().enumerate() {
                     n += 1;
-                    let case = Case { spec: spec.clone(), fail_at, dest, fault: Fault::None, default_dest: (n + k as u64) % 3 == 0 };
+                    let case = Case { spec: spec.clone(), fail_at, back_total: None, dest, fault: Fault::None, default_dest: (n + k as u64) % 3 == 0 };
+                    judge_one(ctx, rep, &case, &mut |c| judge_case(c));
+                }
+            }
+            // backward references in programs whose total size sits right at the reach of a 9-bit field
+            for total in [255usize, 256, 257, 258, 259, 300] {
+                for dest in [Dest::Absent, Dest::ExistingLong] {
+                    let case = Case { spec: spec.clone(), fail_at: None, back_total: Some(total), dest, fault: Fault::None, default_dest: false };
                     judge_one(ctx, rep, &case, &mut |c| judge_case(c));
                 }
             }
             for fault in [Fault::DevFull, Fault::MissingDir, Fault::IsDirectory, Fault::ReadOnlyFile] {
                 for fail_at in [None, Some(0), Some(nstmts / 2)] {
-                    let case = Case { spec: spec.clone(), fail_at, dest: Dest::Absent, fault, default_dest: false };
+                    let case = Case { spec: spec.clone(), fail_at, back_total: None, dest: Dest::Absent, fault, default_dest: false };
                     judge_one(ctx, rep, &case, &mut |c| judge_case(c));
                 }
             }
